@@ -416,16 +416,62 @@ theorem simpleValuesB_sound : ∀ es, simpleValuesB es = true → SimpleValues e
   | .rpc _ _ _ _ _ _ :: _, h => by simp [simpleValuesB] at h
   | .block _ _ _ _ _ _ _ :: _, h => by simp [simpleValuesB] at h
 
+/-! ## statement options of a block: the evaluation `BlockOpts` asks for -/
+
+def optsOkB (os os' : List SOpt) : Bool :=
+  os.length == os'.length && (os.zip os').all (fun p => optOkB p.1 p.2) &&
+  (os.zip os').all (fun p => (os.zip os').all (fun q =>
+    Order.locLess p.2.loc q.2.loc == Order.locLess p.1.loc q.1.loc))
+
+theorem optsOkB_sound {os os' : List SOpt} (h : optsOkB os os' = true) : optsOk os os' := by
+  simp only [optsOkB, Bool.and_eq_true, beq_iff_eq, List.all_eq_true] at h
+  exact ⟨h.1.1, fun p hp => optOkB_sound (h.1.2 p hp), fun p hp q hq => h.2 p hp q hq⟩
+
+def blockOptsB (os : List SOpt) : Bool :=
+  os.all (fun o => !o.hasLoc) &&
+  (optLines0 os).all (fun l => l.toList.all (fun c => c != '\n' && c != '/')) &&
+  decide ((optChunks os).flatten = optToks0 os) &&
+  (optChunks os).all (fun c => match Grammar.optionStmt c with | some (_, []) => true | _ => false) &&
+  optsOkB os (mkOpts 0 (optRaws0 os)) &&
+  (mkOpts 0 (optRaws0 os)).all (fun o => !o.hasLoc || decide (0 < o.startLine))
+
+theorem blockOptsB_sound {os : List SOpt} (h : blockOptsB os = true) : BlockOpts os := by
+  unfold blockOptsB at h
+  simp only [Bool.and_eq_true, decide_eq_true_eq] at h
+  obtain ⟨⟨⟨⟨⟨hu, hnoch⟩, hwhole⟩, hchunks⟩, hok⟩, hpos⟩ := h
+  refine ⟨?_, ?_, hwhole, ?_, optsOkB_sound hok, ?_⟩
+  · intro o ho
+    simp only [List.all_eq_true, Bool.not_eq_true'] at hu
+    exact hu o ho
+  · intro l hl c hc
+    simp only [List.all_eq_true, Bool.and_eq_true, bne_iff_ne, ne_eq] at hnoch
+    exact hnoch l hl c hc
+  · intro c hc
+    simp only [List.all_eq_true] at hchunks
+    have := hchunks c hc
+    split at this
+    · rename_i r heq
+      exact ⟨r, heq⟩
+    · simp at this
+  · intro o ho hl
+    simp only [List.all_eq_true, Bool.or_eq_true, Bool.not_eq_true', decide_eq_true_eq] at hpos
+    rcases hpos o ho with h | h
+    · rw [hl] at h; cases h
+    · exact h
+
 def simpleMembersB : List Item → Bool
   | [] => true
-  | .field f :: r => simpleFieldB f && f.label == "" && simpleMembersB r
+  | .field f :: r => (simpleFieldB f || optFieldB f) && f.label == "" && simpleMembersB r
   | _ :: _ => false
 
 theorem simpleMembersB_sound : ∀ es, simpleMembersB es = true → SimpleMembers es
   | [], _ => trivial
   | .field f :: r, h => by
-    simp only [simpleMembersB, Bool.and_eq_true, beq_iff_eq] at h
-    exact ⟨⟨simpleFieldB_sound h.1.1, h.1.2⟩, simpleMembersB_sound r h.2⟩
+    simp only [simpleMembersB, Bool.and_eq_true, Bool.or_eq_true, beq_iff_eq] at h
+    refine ⟨⟨?_, h.1.2⟩, simpleMembersB_sound r h.2⟩
+    rcases h.1.1 with h1 | h1
+    · exact Or.inl (simpleFieldB_sound h1)
+    · exact Or.inr (optFieldB_sound h1)
   | .rpc _ _ _ _ _ _ :: _, h => by simp [simpleMembersB] at h
   | .block _ _ _ _ _ _ _ :: _, h => by simp [simpleMembersB] at h
 
@@ -434,9 +480,9 @@ def simpleItemB : Item → Bool
   | .field f => simpleFieldB f || mapFieldB f || optFieldB f
   | .rpc _ _ _ _ _ _ => false
   | .block kw t l _ name os ks =>
-    locNoneB l && os.isEmpty && isIdentB name &&
+    locNoneB l && blockOptsB os && isIdentB name &&
     ((kw == "message" && t == 1 && simpleKidsB ks) || (kw == "enum" && t == 2 && simpleValuesB ks) ||
-      (kw == "oneof" && t == 0 && !ks.isEmpty && simpleMembersB ks))
+      (kw == "oneof" && t == 0 && !ks.isEmpty && simpleMembersB ks && os.isEmpty))
 def simpleKidsB : List Item → Bool
   | [] => true
   | e :: r => simpleItemB e && simpleKidsB r
@@ -456,11 +502,11 @@ theorem simpleItemB_sound : ∀ e, simpleItemB e = true → SimpleItem e
     simp only [simpleItemB, Bool.and_eq_true, Bool.or_eq_true, beq_iff_eq] at h
     obtain ⟨⟨⟨hl, ho⟩, hn⟩, hc⟩ := h
     simp only [SimpleItem]
-    refine ⟨locNoneB_sound hl, by simpa using ho, isIdentB_sound hn, ?_⟩
-    rcases hc with (⟨⟨h1, h2⟩, h3⟩ | ⟨⟨h1, h2⟩, h3⟩) | ⟨⟨⟨h1, h2⟩, h4⟩, h3⟩
+    refine ⟨locNoneB_sound hl, blockOptsB_sound ho, isIdentB_sound hn, ?_⟩
+    rcases hc with (⟨⟨h1, h2⟩, h3⟩ | ⟨⟨h1, h2⟩, h3⟩) | ⟨⟨⟨⟨h1, h2⟩, h4⟩, h3⟩, h5⟩
     · exact Or.inl ⟨h1, h2, simpleKidsB_sound ks h3⟩
     · exact Or.inr (Or.inl ⟨h1, h2, simpleValuesB_sound ks h3⟩)
-    · exact Or.inr (Or.inr ⟨h1, h2, by intro h; simp [h] at h4, simpleMembersB_sound ks h3⟩)
+    · exact Or.inr (Or.inr ⟨h1, h2, by intro h; simp [h] at h4, simpleMembersB_sound ks h3, by simpa using h5⟩)
 theorem simpleKidsB_sound : ∀ es, simpleKidsB es = true → SimpleKids es
   | [], _ => trivial
   | e :: r, h => by
@@ -632,7 +678,7 @@ def itemTags : Item → List String
   | .field f => fieldTags f
   | .rpc l _ _ _ _ os => locTags l ++ (if os.isEmpty then [] else ["options"])
   | .block kw _ l _ _ os ks =>
-    locTags l ++ (if os.isEmpty then [] else ["options"]) ++ (if kw == "oneof" then ["oneof"] else []) ++ itemsTags ks
+    locTags l ++ (if (kw == "message" || kw == "enum") && blockOptsB os then [] else if os.isEmpty then [] else ["options"]) ++ (if kw == "oneof" then ["oneof"] else []) ++ itemsTags ks
 def itemsTags : List Item → List String
   | [] => []
   | e :: r => itemTags e ++ itemsTags r
